@@ -645,6 +645,8 @@ class SymFloat:
 
     def is_integer(self):
         self._need_exact("is_integer")
+        if self.ie is not None:
+            return True
         return mk_bool(z3.ToReal(z3.ToInt(self.expr)) == self.expr)
 
     def _concrete(self, why):
